@@ -353,6 +353,58 @@ def run(prog: Program, chk: Check):
     py_mod, py_cls = BACKENDS["python"]
     okr, why, afn = reserved_name_verdict(prog)
     R.decide(okr, fkey(afn, "reserved-names-all-kinds"), where(afn), why, "a struct may declare a field named like a generated message attribute and pass it on through field-list reuse: " + why)
+    # an array length reaches the back ends as an int: expand_expression returns whatever eval() produced (a float for any
+    # expression with `/`), so the length handed to Field(...) must be coerced - `char[N / 2]` would otherwise be emitted as
+    # `[128.0]` (C does not compile, String(128.0) raises at import) or crash the layout check
+    def raw_eval_names(fn):
+        """locals holding the un-coerced result of expand_expression (directly or through copies)"""
+        names = set()
+        changed = True
+        while changed:
+            changed = False
+            for n in walk_local(fn.node):
+                if not isinstance(n, (ast.Assign, ast.AnnAssign)) or n.value is None:
+                    continue
+                tg = n.targets if isinstance(n, ast.Assign) else [n.target]
+                v = n.value
+                from_eval = isinstance(v, ast.Call) and is_method_call(v, "expand_expression")
+                from_copy = isinstance(v, ast.Name) and v.id in names
+                if from_eval or from_copy:
+                    for t in tg:
+                        for x in (t.elts if isinstance(t, (ast.Tuple, ast.List)) else [t]):
+                            if isinstance(x, ast.Name) and x.id not in names:
+                                names.add(x.id)
+                                changed = True
+        return names
+
+    def uncoerced(e, names):
+        """does e use one of `names` outside an int(...) call?"""
+        if isinstance(e, ast.Call) and isinstance(e.func, ast.Name) and e.func.id in ("int", "len", "str", "repr"):
+            return False
+        if isinstance(e, ast.Name):
+            return e.id in names
+        return any(uncoerced(c_, names) for c_ in ast.iter_child_nodes(e))
+
+    nlen = 0
+    for fn in prog.module(PAR).functions.values():
+        rn_ = raw_eval_names(fn)
+        for c in calls_in(fn.node):
+            if isinstance(c.func, ast.Name) and c.func.id == "Field":
+                lv = next((k.value for k in c.keywords if k.arg == "length"), None)
+                if lv is None:
+                    continue
+                nlen += 1
+                R.decide(not uncoerced(lv, rn_), fkey(fn, f"Field.length:{norm(lv)[:40]}"), where(fn, c), f"Field(length={norm(lv)[:30]}) does not carry an un-coerced eval() result",
+                         f"{fn.qual}: Field(length={norm(lv)[:40]}) is the raw result of expand_expression - `N / 2` evaluates to a float and is emitted as `[128.0]`")
+        for n in walk_local(fn.node):
+            if isinstance(n, ast.Assign) and isinstance(n.value, ast.Call) and is_method_call(n.value, "expand_expression"):
+                for t in n.targets:
+                    for x in (t.elts if isinstance(t, (ast.Tuple, ast.List)) else [t]):
+                        if isinstance(x, ast.Attribute) and x.attr == "length":
+                            nlen += 1
+                            R.bad(fkey(fn, f"store .length:{norm(n)[:40]}"), where(fn, n), f"{fn.qual}: `{norm(n)[:70]}` stores the raw result of expand_expression as an array length (a float for any expression with `/`)")
+    if nlen < 3:
+        raise AnalysisError(f"anchor vanished: expected >= 3 array lengths handed to Field(...) in the parser, found {nlen}")
     # preconditions of descriptor constructors (assert <len> > K in validators) vs. emission sites in get_descriptor
     vm = prog.module("pyrtma.validators")
     pre = {}
